@@ -288,3 +288,40 @@ func TestC14Backlog(t *testing.T) {
 		ev.Case(true, evid.Hash("c14backlog", n, cfg.Prefix), "backlog")
 	})
 }
+
+// TestC13ManyValues: several hundred stored values in one query range: "negative limit
+// means unlimited", offsets and limits deep into the range, both directions.
+func TestC13ManyValues(t *testing.T) {
+	ev := evid.For("C13")
+	rapid.Check(t, func(rt *rapid.T) {
+		cfg := Cfg{Prefix: rapid.SampledFrom([]string{"", "pfx"}).Draw(rt, "prefix"), Indexes: []string{"ia"}}
+		n := rapid.IntRange(257, 420).Draw(rt, "values")
+		m, err := newMachine(cfg)
+		if err != nil {
+			rt.Fatalf("VERIF-INCONCLUSIVE: %v", err)
+		}
+		defer m.cleanup()
+		model := map[string]Rec{}
+		for i := 0; i < n; i++ {
+			id := fmt.Sprintf("v%03d", i)
+			rec := Rec{A: rapid.SampledFrom([]string{"a", "ab", "b", "a~", "~nil"}).Draw(rt, "a"), B: "b"}
+			if err := m.mutate(Op{K: "create", ID: id, A: rec.A, B: rec.B}); err != nil {
+				rt.Fatalf("create %s: %v", id, err)
+			}
+			model[id] = rec
+		}
+		m.qs.Flush()
+		for _, q := range []Query{
+			{Index: "ia", Limit: -1}, {Index: "ia", Limit: -1, Reverse: true}, {Index: "ia", Prefix: "a", Limit: -1},
+			{Index: "ia", Limit: -1, Offset: 250}, {Index: "ia", Limit: 300}, {Index: "ia", Limit: 256}, {Index: "ia", Limit: 257, Reverse: true, Offset: 3},
+			{Index: "ia", Prefix: "a", Filter: "evenlen", Limit: -1},
+		} {
+			got, err := m.query(q)
+			want := refQuery(model, q)
+			if err != nil || !sameIDs(got, want) {
+				rt.Fatalf("with %d stored values query %+v returned %d ids (%v), the scan of the store gives %d", n, q, len(got), err, len(want))
+			}
+		}
+		ev.Case(true, evid.Hash("many", n, cfg.Prefix), "many-values")
+	})
+}
